@@ -27,11 +27,11 @@ type stressCase struct {
 }
 
 type stressResult struct {
-	overlap  string
-	order    string
-	lost     string
-	dup      string
-	total    int
+	overlap   string
+	order     string
+	lost      string
+	dup       string
+	total     int
 	contended bool
 }
 
@@ -219,3 +219,138 @@ func stressTest(t *testing.T, prop string) {
 
 func TestC01Stress(t *testing.T) { stressTest(t, "C01") }
 func TestC02Stress(t *testing.T) { stressTest(t, "C02") }
+
+// TestC03Stress: free-running shutdown storms. Producers, a request deliverer and
+// foreign-goroutine API calls keep going while Shutdown runs; nothing may panic, a
+// delivery must never hit a closed channel while the connection still delivers, the
+// connection is closed once, no callback starts after Shutdown returned, and the
+// service can be served again.
+func TestC03Stress(t *testing.T) {
+	ev := evid.For("C03")
+	rapid.Check(t, func(rt *rapid.T) {
+		workers := rapid.SampledFrom([]int{1, 2, 4, 16}).Draw(rt, "workers")
+		cycles := rapid.IntRange(1, 3).Draw(rt, "cycles")
+		yield := rapid.SampledFrom([]int{0, 100, 400}).Draw(rt, "yield")
+		delay := rapid.IntRange(0, 300).Draw(rt, "shutdownDelayMicros")
+		s := res.NewService("svc")
+		s.SetWorkerCount(workers)
+		s.SetLogger(nil)
+		var afterShutdown, running int64
+		var stopped atomic.Bool
+		body := func() {
+			if stopped.Load() {
+				atomic.AddInt64(&afterShutdown, 1)
+			}
+			atomic.AddInt64(&running, 1)
+			if rand.IntN(3) == 0 {
+				runtime.Gosched()
+			}
+			atomic.AddInt64(&running, -1)
+		}
+		s.Handle("g.$id", res.Call("do", func(r res.CallRequest) { body(); r.OK(nil) }), res.GetModel(func(r res.ModelRequest) { body(); r.Model(map[string]int{"a": 1}) }))
+		res.VerifHook = func(string, interface{}) {
+			if yield > 0 && rand.IntN(1000) < yield {
+				runtime.Gosched()
+			}
+		}
+		defer func() { res.VerifHook = nil }()
+		base := fakeconn.ClosedChanSends()
+		var panics atomic.Value
+		guard := func(what string) {
+			if v := recover(); v != nil {
+				panics.CompareAndSwap(nil, fmt.Sprintf("%s panicked: %v", what, v))
+			}
+		}
+		for c := 0; c < cycles; c++ {
+			conn := fakeconn.New()
+			served := make(chan struct{})
+			s.SetOnServe(func(*res.Service) { close(served) })
+			exited := make(chan error, 1)
+			stopped.Store(false)
+			go func() { exited <- s.Serve(conn) }()
+			select {
+			case <-served:
+			case err := <-exited:
+				rt.Fatalf("cycle %d: Serve returned %v before starting (restart refused?)", c, err)
+			case <-time.After(20 * time.Second):
+				rt.Fatalf("VERIF-INCONCLUSIVE: service did not start")
+			}
+			quit := make(chan struct{})
+			var wg sync.WaitGroup
+			spawn := func(what string, f func(i int)) {
+				wg.Add(1)
+				go func() {
+					defer wg.Done()
+					defer guard(what)
+					for i := 0; ; i++ {
+						select {
+						case <-quit:
+							return
+						default:
+						}
+						f(i)
+					}
+				}()
+			}
+			spawn("With", func(i int) { _ = s.With(fmt.Sprintf("svc.g.%d", i%5), func(res.Resource) { body() }) })
+			spawn("deliver", func(i int) {
+				conn.Deliver(fmt.Sprintf("call.svc.g.%d.do", i%5), fmt.Sprintf("_INBOX.x%d", i), nil)
+				conn.Deliver(fmt.Sprintf("get.svc.g.%d", i%3), fmt.Sprintf("_INBOX.y%d", i), nil)
+			})
+			spawn("foreign", func(i int) {
+				switch i % 4 {
+				case 0:
+					s.Reset([]string{"svc.g.1"}, nil)
+				case 1:
+					s.TokenEvent("cid", i)
+				case 2:
+					if r, err := s.Resource("svc.g.1"); err == nil {
+						r.Event("foreign", i)
+					}
+				default:
+					s.ResetAll()
+				}
+			})
+			time.Sleep(time.Duration(delay) * time.Microsecond)
+			done := make(chan struct{})
+			go func() {
+				defer guard("Shutdown")
+				_ = s.Shutdown()
+				stopped.Store(true)
+				if n := atomic.LoadInt64(&running); n != 0 {
+					panics.CompareAndSwap(nil, fmt.Sprintf("Shutdown returned while %d callbacks were still executing", n))
+				}
+				close(done)
+			}()
+			select {
+			case <-done:
+			case <-time.After(30 * time.Second):
+				close(quit)
+				rt.Fatalf("VERIF-INCONCLUSIVE: Shutdown did not return within 30s in free-running mode (the bubble variant decides hangs exactly)")
+			}
+			select {
+			case <-exited:
+			case <-time.After(30 * time.Second):
+				close(quit)
+				rt.Fatalf("VERIF-INCONCLUSIVE: Serve did not return within 30s after Shutdown")
+			}
+			// keep hammering the stopped service for a moment, then stop the callers
+			time.Sleep(200 * time.Microsecond)
+			close(quit)
+			wg.Wait()
+			if conn.Closed != 1 {
+				rt.Fatalf("cycle %d: connection closed %d times, expected exactly once", c, conn.Closed)
+			}
+		}
+		if v := panics.Load(); v != nil {
+			rt.Fatalf("%s", v.(string))
+		}
+		if n := fakeconn.ClosedChanSends() - base; n != 0 {
+			rt.Fatalf("%d deliveries hit a closed in-channel while the connection still delivered: the service closed its channel before closing the connection (a real NATS client would panic with 'send on closed channel')", n)
+		}
+		if n := atomic.LoadInt64(&afterShutdown); n != 0 {
+			rt.Fatalf("%d callbacks started after Shutdown had returned", n)
+		}
+		ev.Case(cycles > 1 || delay < 50, evid.Hash("c03stress", workers, cycles, yield, delay), "stress")
+	})
+}
